@@ -254,6 +254,50 @@ def run_inplace(chk, fx, fns, prefix="C03"):
 
 
 
+def run_items(chk, fx, prefix="C03"):
+    """<prefix>.items: a local named after a record item is read from the item of that name."""
+    r = chk.rule(prefix + ".items", "in the input code, a local variable that carries the name of one of the record items its function reads (K1, K2, I, J, ...) is initialised from the item of that name, not from a sibling item", floor=100)
+
+    def norm(t):
+        return re.sub(r"[^a-z0-9]", "", t.lower())
+
+    def item_of(call):
+        m_, o_ = meth(call)
+        if m_ in ("getItem", "get") and call.get("a"):
+            ls = [x["v"] for x in walk(call["a"][0]) if x["k"] == "Str"]
+            if ls:
+                return ls[0]
+        if m_ == "getItem" and call.get("targs"):
+            return call["targs"][0].split("::")[-1]
+        return None
+    for f in fx.fns:
+        if not f.get("body") or "/opm/input/" not in f["file"]:
+            continue
+        items = {item_of(n) for n in walk_fn(f) if n["k"] in ("MCall", "Call") and item_of(n)}
+        if len(items) < 2:
+            continue
+        ni = {norm(i): i for i in items}
+        for n in walk_fn(f):
+            if n["k"] != "Decl":
+                continue
+            for v in n["vars"]:
+                if v.get("init") is None:
+                    continue
+                its = {item_of(c) for c in walk(v["init"]) if c["k"] in ("MCall", "Call") and item_of(c)}
+                if len(its) != 1:
+                    continue
+                it = next(iter(its))
+                # numbered siblings (K1/K2, I1/I2, ...): a variable named X<n> read from item X<m>, n != m
+                mv, mi = re.match(r"^([a-z]+)(\d+)$", norm(v["n"])), re.match(r"^([a-z]+)(\d+)$", norm(it))
+                sibling = bool(mv and mi and mv.group(1) == mi.group(1) and mv.group(2) != mi.group(2))
+                if norm(v["n"]) not in ni and not sibling:
+                    continue
+                key = "%s:%s@%d" % (f["q"], v["n"], n["l"] - f["l"])
+                chk.instance(r, key, sample=dict(function=f["q"], variable=v["n"], read_from_item=it))
+                if norm(it) != norm(v["n"]):
+                    chk.violation(r, key, "%s: `%s` is initialised from record item %s (%s): the value of a sibling item is used under this name" % (f["q"], v["n"], it, "the function also reads item %s" % ni[norm(v["n"])] if norm(v["n"]) in ni else "numbered sibling of the item the name says"), f["file"], n["l"])
+
+
 def run_changed(chk, fx, prefix="C03"):
     """<prefix>.changed: 'install the new value only if it differs' makes operator== part of the schedule semantics."""
     r = chk.rule(prefix + ".changed", "where an update method installs a new value only if `*this->m != *arg`, the operator== of that class compares every data member (a forgotten member makes a keyword that changes only that member a silent no-op)", floor=12)
@@ -346,6 +390,7 @@ def run(chk):
 
     run_inplace(chk, fx, fns)
     run_changed(chk, fx)
+    run_items(chk, fx)
 
     # ---- C03.index
     r_idx = chk.rule("C03.index", "snapshots[e] with an arithmetic index (an earlier/later step than the one being built) is only read", floor=40)
